@@ -47,7 +47,7 @@ IMPORTS = ['Base.Prelude', 'Base.Corr', 'Syntax.Asn1', 'Text.Universe', 'Text.Js
            'Text.JerImpl', 'Text.XerImpl']
 
 
-class Hang(Exception):
+class Hang(BaseException):
     pass
 
 
@@ -68,6 +68,15 @@ def limited(seconds, f, *a, **kw):
     finally:
         signal.setitimer(signal.ITIMER_REAL, 0)
         signal.signal(signal.SIGALRM, old)
+
+
+HANGS = []
+
+
+def no_infinities(rt, T, v):
+    """Unrepaired tree only: after three reported hangs of the XER REAL encoder on an infinity the
+    generators stop producing infinities for XER (each one costs the full time limit)."""
+    return G.map_value(rt, T, v, lambda t, x: 0.0 if t['k'] == 'REAL' and isinstance(x, float) and math.isinf(x) else x)
 
 
 def opts_for(rng, quick):
@@ -305,6 +314,8 @@ def corr(ctx, nmods):
                         if mi == 0 and rep == 0:
                             v0 = G.strip_optional(rt, T, v0)
                         v = G.for_codec(rt, T, v0, codec, special_reals_only=(codec == 'xer'), rng=rng)
+                        if codec == 'xer' and len(HANGS) >= 3:
+                            v = no_infinities(rt, T, v)
                         neg = None
                         if numeric:
                             v = to_numeric(rt, T, v)
@@ -330,6 +341,7 @@ def corr_case(ctx, table, spec, codec, numeric, env, text, rt, tname, T, v, neg)
     if r[0] != 'ok':
         ctx.count('corr:%s:enc:%s' % (codec, r[1]))
         if r[1] == 'hang':
+            HANGS.append(1)
             ctx.violation('encode does not terminate', dict(kind='pt', indent=None, **meta))
             return
         table['enc'].append(((env, tname, vt), G.result_term(r, None), dict(kind='corr-enc', impl=repr(r[1:]), **meta)))
@@ -366,7 +378,7 @@ def corr_case(ctx, table, spec, codec, numeric, env, text, rt, tname, T, v, neg)
         if d[0] == 'ok':
             try:
                 exp = C('Ok', G.xvalue(rt, T, d[1]))
-            except TypeError:
+            except Exception:
                 ctx.count('corr:%s:dec:unexportable' % codec)
                 continue
         else:
@@ -410,11 +422,13 @@ Eval vm_compute in mismatches (result_eqb xvalue_eqb) dec_case dec_cases.
                                         enc_disagree=len(bad_enc), dec_disagree=len(bad_dec))
     ctx.log('corr %s: %d encode cases, %d decode cases, disagreements %d / %d' % (
         codec, len(table['enc']), len(table['dec']), len(bad_enc), len(bad_dec)))
-    for which, bad in (('enc', bad_enc), ('dec', bad_dec)):
-        for i in bad[:4]:
+    picked = [(which, i) for which, bad in (('enc', bad_enc), ('dec', bad_dec)) for i in bad[:4]]
+    if picked:
+        # one more evaluation prints what the model computes for the first disagreements
+        outs = ctx.coq_eval('corr1_' + codec, IMPORTS, head + ''.join(
+            'Eval vm_compute in %s_case %s.\n' % (which, to_coq(table[which][i][0])) for which, i in picked))
+        for (which, i), mv in zip(picked, outs):
             inp, exp, meta = table[which][i]
-            (mv,) = ctx.coq_eval('corr1_' + codec, IMPORTS,
-                                 head + 'Eval vm_compute in %s_case %s.\n' % (which, to_coq(inp)))
             ctx.violation('model and %s.py disagree (%s, %s of type %s): impl %s, model %s' % (
                 codec, which, meta.get('how', 'encode'), meta['type'], meta['impl'][:160], repr(mv)[:200]),
                 dict(model=repr(mv)[:1000], **meta))
@@ -445,7 +459,11 @@ def check_roundtrip(ctx, spec, codec, numeric, text, rt, tname, T, v, key, hangs
                           dict(encoded=r[1].decode('utf-8', 'replace')[:400], **meta))
             return False
         # named-bit BIT STRINGs are equal modulo trailing zero bits: normalise both sides
-        if not G.same(norm(rt, T, d[1], numeric), want):
+        try:
+            got = norm(rt, T, d[1], numeric)
+        except Exception:       # decoded value does not even have the shape of the type
+            got = d[1]
+        if not G.same(got, want):
             ctx.violation('%s round trip changes the value (indent=%r): decoded %s, expected %s' % (
                 codec.upper(), ind, pyrepr(d[1])[:160], pyrepr(want)[:160]),
                 dict(encoded=r[1].decode('utf-8', 'replace')[:400], decoded=pyrepr(d[1])[:400], **meta))
@@ -456,7 +474,11 @@ def check_roundtrip(ctx, spec, codec, numeric, text, rt, tname, T, v, key, hangs
 def pt(ctx, nmods):
     rng = ctx.rng
     hangs = []
+    start = len(ctx.violations)
     for mi in range(nmods + 1):
+        if len(ctx.violations) - start >= 40:
+            ctx.log('property test stopped after 40 reported failures')
+            return
         mod, text, g = G.fixture(rng) if mi == 0 else G.generate(rng, opts_for(rng, ctx.quick))
         rt = G.make_resolver(mod)
         for codec in ('jer', 'xer'):
@@ -472,9 +494,8 @@ def pt(ctx, nmods):
                         if mi == 0 and rep == 0:
                             v0 = G.strip_optional(rt, T, v0)
                         v = G.for_codec(rt, T, v0, codec)
-                        if codec == 'xer' and len(hangs) >= 3:
-                            # unrepaired tree: stop feeding infinities after three reported hangs
-                            v = G.map_value(rt, T, v, lambda t, x: 1.5 if t['k'] == 'REAL' and math.isinf(x) else x)
+                        if codec == 'xer' and len(hangs) + len(HANGS) >= 3:
+                            v = no_infinities(rt, T, v)
                         if numeric:
                             v = to_numeric(rt, T, v)
                         reals = G.has_kind(rt, T, v, ('REAL',))
@@ -510,9 +531,13 @@ def pt_reals(ctx, nrandom):
     hangs = []
     for codec in ('jer', 'xer'):
         spec = lib.compile_string(REAL_SPEC, codec)
+        before = len(ctx.violations)
         for i, f in enumerate(vals):
             if codec == 'xer' and math.isinf(f) and len(hangs) >= 2:
                 continue
+            if len(ctx.violations) - before >= 12:
+                ctx.log('REAL battery for %s stopped after 12 reported failures' % codec)
+                break
             cls = 'nan' if math.isnan(f) else 'inf' if math.isinf(f) else 'zero' if f == 0 else \
                 'subnormal' if abs(f) < 2.2250738585072014e-308 else 'e%+04d' % (math.frexp(f)[1] // 64 * 64)
             ctx.count('pt-real:%s:%s' % (codec, 'special' if cls in ('nan', 'inf', 'zero') else 'finite'))
@@ -523,6 +548,8 @@ def pt_reals(ctx, nrandom):
                                 [f, -f, f], (codec, 'SEQOF-REAL', cls), hangs)
         # structured use
         for f in vals[:12]:
+            if len(ctx.violations) - before >= 16 or (codec == 'xer' and math.isinf(f) and len(hangs) >= 2):
+                continue
             v = {'a': f, 'c': [f, 1.5], 'd': ('x', f)}
             d = limited(2, lambda: spec.decode('S', spec.encode('S', v, indent=1)))
             ctx.case(('pt-real-struct', codec, repr(f)))
